@@ -29,6 +29,14 @@ def _calls(quick, thorough):
                  label="bounded(codec calls per precache <= %d)" % thorough)]
 
 
+def _libcalls(quick, thorough):
+    return [dict(id="lib%d" % quick, defines={"LIBCALLS": quick}, unwind=quick + 1,
+                 tier="quick"),
+            dict(id="lib%d" % thorough, defines={"LIBCALLS": thorough},
+                 unwind=thorough + 1, tier="thorough",
+                 label="bounded(library calls per process_data <= %d)" % thorough)]
+
+
 HARNESSES = [
     # xfrm/istream.c: the refill loop is `for (;;)`, which cannot carry a loop
     # contract in cbmc 6.11 -> unwound, bounded number of codec calls
@@ -38,4 +46,6 @@ HARNESSES = [
        cases=_calls(3, 5)),
     _h("in_advance", fp=_FP_IN),
     _h("out_flush_inbuf", ["flush_inbuf"], fp=_FP_OUT),
+    _h("adapter_gzip", label="bounded(library calls per process_data <= 3)",
+       cases=_libcalls(3, 5)),
 ]
